@@ -739,6 +739,11 @@ def grids_equal(ctx, key, case, g, g2, idxs, kind):
             a, b = (a() if callable(a) else a), (b() if callable(b) else b)
         except Exception:
             continue
+        if a is None or b is None:
+            if a is not b:
+                ctx.fail(key, "rebuilt grid has the pitch of the current grid", case, observed=b, expected=a)
+                return False
+            continue
         if np.any(np.array(a, dtype=float) != np.array(b, dtype=float)):
             ctx.fail(key, "rebuilt grid has the pitch of the current grid", case, observed=b, expected=a)
             return False
